@@ -41,6 +41,15 @@ class MessageExtractor:
 
             if isinstance(node, parsetree.Comment):
                 value = node.text.strip()
+                if (
+                    translator_comments
+                    and translator_comments[-1][0] < node.lineno - 1
+                ):
+                    # not on the line after the collected comments: those
+                    # did not immediately precede a message, and this
+                    # comment does not continue them
+                    translator_comments = []
+                    in_translator_comments = False
                 if in_translator_comments:
                     translator_comments.extend(
                         self._split_comment(node.lineno, value)
